@@ -12,7 +12,7 @@
 (*         one real Response finalised with get_wsgi_response, iterated `plan` chunks, closed *)
 (* s = `type(value) is str`.  Verdicts come only from the clauses of the property statement   *)
 (* (Response!FinClause, StoredClean, AttemptsDirty); everything else is model drift.          *)
-EXTENDS Shape, TLC, Json, IOUtils
+EXTENDS Shape, Reuse, TLC, Json, IOUtils
 
 Lines == ndJsonDeserialize(IOEnv.TRACE_FILE)
 
@@ -75,11 +75,13 @@ Verdict(ln) == CASE ln.op \in {"hdr", "hdrx"} -> HdrClause(ln)   \* hdrx: an ent
                  [] ln.op = "rfin" -> FinClause(ln.inp, ln.out, Native(ln.out.headers))   \* recorded from the repository's tests
                  [] ln.op = "shape" -> ShapeClause(ln.method, ln.code, ln.ncb, ln.out, ln.its, Native(ln.out.headers))
                  [] ln.op = "exc" -> ExcClause(ln)
+                 [] ln.op = "reuse" -> ReuseClause(ln)      \* one response object sent several times (Reuse.tla)
                  [] OTHER -> "ok"
 Drift(ln) == CASE ln.op = "hdr" -> HdrDrift(ln)
                [] ln.op = "fin" -> FinDriftAll(ln)
                [] ln.op = "shape" -> ShapeDrift(ln)
                [] ln.op = "exc" -> ExcDrift(ln)
+               [] ln.op = "reuse" -> ReuseDrift(ln)
                [] OTHER -> "ok"
 
 Init == l = 1
